@@ -287,6 +287,32 @@ func judgeStep(r *kit.Run, m *feeModel, currMs int64, rules c13Rules, note strin
 	return next
 }
 
+// judgePair: two parent states differing only in usage (hi >= lo slot-wise); the higher
+// usage must not yield a lower next price. Judged on real outputs only.
+func judgePair(r *kit.Run, lo, hi *feeModel, curr int64, rules c13Rules) {
+	e := uint64(curr/1000 - lo.lastSec)
+	r.Eval()
+	var nlo, nhi *ifees.Manager
+	cl, ch := mkCase(lo, curr, rules, "monotone-lo"), mkCase(hi, curr, rules, "monotone-hi")
+	r.Guard("ComputeNext", cl, func() { nlo = ifees.NewManager(lo.encode()).ComputeNext(curr, rules) })
+	r.Guard("ComputeNext", ch, func() { nhi = ifees.NewManager(hi.encode()).ComputeNext(curr, rules) })
+	if nlo == nil || nhi == nil {
+		return
+	}
+	r.Count("monotone_pairs", 1)
+	for d := fees.Dimension(0); d < fees.FeeDimensions; d++ {
+		pl, ph := nlo.UnitPrice(d), nhi.UnitPrice(d)
+		if ph < pl {
+			r.Violation("C13/not-monotone-in-usage", map[string]any{"lower_usage": cl, "higher_usage": ch, "dimension": d},
+				"dimension %d: price %d, target %d, denominator %d, elapsed %d s: usage (window %v + %d) -> next price %d but higher usage (window %v + %d) -> lower next price %d",
+				d, lo.dims[d].price, rules.target[d], rules.den[d], e, lo.dims[d].win, lo.dims[d].last, pl, hi.dims[d].win, hi.dims[d].last, ph)
+		}
+		if ph != pl {
+			r.Count("monotone_pairs_price_differs", 1)
+		}
+	}
+}
+
 var c13Elapsed = []uint64{0, 0, 1, 1, 2, 3, 4, 5, 6, 7, 8, 9, 9, 10, 10, 11, 11, 12, 19, 20, 21, 29, 30, 99, 100, 101, 3600, 86400, 1_000_000_000, 1 << 40, 1 << 52}
 
 func genWindow(rng *rand.Rand, target uint64) (w [c13Window]uint64, last uint64) {
@@ -387,14 +413,26 @@ func TestC13(t *testing.T) {
 		"the arbitrary input states of part (1) are laid out as documented in internal/fees/manager.go; what the manager decodes from them is checked through its accessors",
 	)
 	if rf := r.Replay(); rf != nil && len(rf.Witness) > 0 {
+		var pair struct {
+			Lo c13Case `json:"lower_usage"`
+			Hi c13Case `json:"higher_usage"`
+		}
+		if err := jsonUnmarshal(rf.Witness, &pair); err == nil && pair.Lo.Raw != "" && pair.Hi.Raw != "" {
+			lraw, _ := hex.DecodeString(pair.Lo.Raw)
+			hraw, _ := hex.DecodeString(pair.Hi.Raw)
+			lo, ok1 := decodeModel(lraw)
+			hi, ok2 := decodeModel(hraw)
+			if ok1 && ok2 {
+				judgePair(r, lo, hi, pair.Lo.CurrMs, pair.Lo.rules())
+				r.Finish(0)
+				return
+			}
+		}
 		var c c13Case
 		if err := jsonUnmarshal(rf.Witness, &c); err == nil {
 			if raw, err := hex.DecodeString(c.Raw); err == nil {
 				if m, ok := decodeModel(raw); ok {
 					judgeStep(r, m, c.CurrMs, c.rules(), "replay")
-					if c.Note == "monotone-hi" || c.Note == "monotone-lo" {
-						t.Logf("note: witness of a monotonicity pair; the pair partner is described in the violation detail")
-					}
 					r.Finish(0)
 					return
 				}
@@ -459,26 +497,7 @@ func TestC13(t *testing.T) {
 		if !raised {
 			continue
 		}
-		r.Eval()
-		var nlo, nhi *ifees.Manager
-		cl, ch := mkCase(lo, curr, rules, "monotone-lo"), mkCase(&hi, curr, rules, "monotone-hi")
-		r.Guard("ComputeNext", cl, func() { nlo = ifees.NewManager(lo.encode()).ComputeNext(curr, rules) })
-		r.Guard("ComputeNext", ch, func() { nhi = ifees.NewManager(hi.encode()).ComputeNext(curr, rules) })
-		if nlo == nil || nhi == nil {
-			continue
-		}
-		r.Count("monotone_pairs", 1)
-		for d := fees.Dimension(0); d < fees.FeeDimensions; d++ {
-			pl, ph := nlo.UnitPrice(d), nhi.UnitPrice(d)
-			if ph < pl {
-				r.Violation("C13/not-monotone-in-usage", map[string]any{"lower_usage": cl, "higher_usage": ch, "dimension": d},
-					"dimension %d: price %d, target %d, denominator %d, elapsed %d s: usage (window %v + %d) -> next price %d but higher usage (window %v + %d) -> lower next price %d",
-					d, lo.dims[d].price, rules.target[d], rules.den[d], e, lo.dims[d].win, lo.dims[d].last, pl, hi.dims[d].win, hi.dims[d].last, ph)
-			}
-			if ph != pl {
-				r.Count("monotone_pairs_price_differs", 1)
-			}
-		}
+		judgePair(r, lo, &hi, curr, rules)
 	}
 
 	// (3) block sequences from the genesis fee state
